@@ -199,7 +199,7 @@ P["C04"] = {"property": "C04", "level": "proof", "units": [
 
 # ====================== jwt_checker_verify (top level) =====================
 TOP_STUBS = LIBC + ["stubs/time.c", "stubs/verify_top.c"]
-TOP_CLAUSE_PROPS = [["C14", 2], ["C01", 1], ["C06", 2], ["C02", 4], ["C19", 2]]
+TOP_CLAUSE_PROPS = [["C14", 2], ["C01", 1], ["C06", 2], ["C02", 4], ["C19", 2], ["C13", 1]]
 def top(prop, replay=None, **kw):
     """the shared top-level unit: same definition whatever property asks for it"""
     c = "contract_all_jwt_checker_verify"
@@ -215,7 +215,7 @@ def top(prop, replay=None, **kw):
              replay=replay, **kw)
 
 # ===================== jwt_builder_generate (top level) =====================
-GEN_CLAUSE_PROPS = [["C14", 2], ["C03", 6], ["C10", 5], ["C13", 1], ["C17", 1]]
+GEN_CLAUSE_PROPS = [["C14", 2], ["C03", 6], ["C10", 5], ["C13", 2], ["C17", 1]]
 def gen_top(replay={"driver": "replay/r_gen.c"}):
     c = "contract_all_jwt_builder_generate"
     return U("TOP.jwt_builder_generate", "jwt_builder_generate (libjwt/jwt-common.c as jwt-builder)", common_tu("BUILDER"),
@@ -357,7 +357,19 @@ P["C06"] = {"property": "C06", "level": "proof", "units": [
 P["C09"] = {"property": "C09", "level": "proof", "units": gate_chain("C09") + [vc("C09")]}
 
 P["C19"] = {"property": "C19", "level": "proof", "units": [top("C19", replay={"driver": "replay/r_C19.c"})]}
-P["C10"] = {"property": "C10", "level": "proof", "units": [gen_top()]}
+def cfg_unit(prop, side, fn, contract, body, replay=None):
+    return U("%s.%s" % (prop, fn), "%s (libjwt/jwt-common.c)" % fn, common_tu(side), "contracts/jwt_common_c.h", body,
+             "%s/%s" % (fn, contract), stubs=LIBC, defines=["VERIF_TU_" + side], expect=[contract + "\\.postcondition\\.2"],
+             timeout=120, replay=replay)
+R_CFG = {"driver": "replay/r_cfg.c"}
+P["C10"] = {"property": "C10", "level": "proof", "units": [gen_top(),
+    cfg_unit("C10", "BUILDER", "jwt_builder_time_offset", "contract_C10_jwt_builder_time_offset",
+             "jwt_builder_t *b; jwt_claims_t c; time_t s; jwt_builder_time_offset(b, c, s);", dict(R_CFG, args=["fn=offset"])),
+    cfg_unit("C10", "BUILDER", "jwt_builder_enable_iat", "contract_C10_jwt_builder_enable_iat",
+             "jwt_builder_t *b; int e; jwt_builder_enable_iat(b, e);"),
+]}
+P["C04"]["units"].append(cfg_unit("C04", "CHECKER", "jwt_checker_time_leeway", "contract_C04_jwt_checker_time_leeway",
+             "jwt_checker_t *c; jwt_claims_t cl; time_t s; jwt_checker_time_leeway(c, cl, s);", dict(R_CFG, args=["fn=leeway"])))
 P["C13"] = {"property": "C13", "level": "proof", "units": [gen_top(), top("C13")]}
 P["C17"] = {"property": "C17", "level": "proof", "units": [gen_top()]}
 P["C03"]["units"].append(gen_top())
